@@ -184,7 +184,11 @@ def tagsOf (t : TableMeta) (lay : List RowSet) (bound opt : Plan) : List String 
       (if !t.primary.contains k then ["range:key-not-primary"] else []) ++
       (if dupAcrossBlocks lay k r then ["range:dup-keys-across-blocks"] else [])
     | _, _ => []
-  t1 ++ t2 ++ t3
+  -- a scan filter that is neither `true` nor a key range is silently ignored by the builder
+  let t4 := match f with
+    | .const (.bool true) => []
+    | _ => if (keyRangeOfFilter f).isNone then ["range:scan-filter-not-range"] else []
+  t1 ++ t2 ++ t4 ++ t3
 
 def answerQuery (t : TableMeta) (lay : List RowSet) (q : Sexp) : String :=
   match q with
@@ -199,7 +203,7 @@ def answerQuery (t : TableMeta) (lay : List RowSet) (q : Sexp) : String :=
         let execB := execPlan lay bp
         "(ans ok (keys " ++ toString ks.length ++ ") (limited " ++ toString (hasLimit bp) ++ ") (exec " ++ showOut ks (outCols op) exec ++
           ") (execb " ++ showOut ks (outCols bp) execB ++ ") (spec " ++ showOut ks (outCols bp) (.ok spec) ++
-          ") (sorted " ++ toString (hasSort op) ++
+          ") (sorted " ++ toString (hasSort op) ++ ") (pushed " ++ toString (keyRangeOfFilter (scanOf op).2).isSome ++
           ") (tags " ++ " ".intercalate (tagsOf t lay bp op) ++ "))"
     | _, _ => "(ans unsupported)"
   | _ => "(ans bad-request)"
@@ -232,10 +236,23 @@ def answerScan (t : TableMeta) (lay : List RowSet) (s : Sexp) : String :=
         else scanTable lay cols r
       let full := concatScan lay
       let fc := cols.headD 0
+      let kc := t.primary.headD fc
       let spec := match r with
         | none => full
-        | some rg => full.filter fun row => inRange rg (Row.at row fc)
-      "(sc (exec " ++ showOut (ascKeys t.primary) cols exec ++ ") (spec " ++ showOut (ascKeys t.primary) cols (.ok spec) ++ "))"
+        | some rg => full.filter fun row => sqlInRange rg (Row.at row kc)
+      let tags : List String := match r, t.primary.head? with
+        | some rg, some k =>
+          let vals := (bndVal rg.lo).toList ++ (bndVal rg.hi).toList
+          let keyVals := full.map fun row => Row.at row k
+          (if vals.any Val.isNull then ["range:null-bound"] else []) ++
+          (if !(vals.all fun v => isI32 v || v.isNull) || !(keyVals.all isI32) then ["range:key-type-not-i32"] else []) ++
+          (if cols.head? != some k then ["range:key-not-first-scanned"] else []) ++
+          (if k != 0 then ["range:key-not-col0"] else []) ++
+          (if dupAcrossBlocks lay k rg then ["range:dup-keys-across-blocks"] else [])
+        | some _, none => ["range:no-sort-key"]
+        | none, _ => []
+      "(sc (exec " ++ showOut (ascKeys t.primary) cols exec ++ ") (spec " ++ showOut (ascKeys t.primary) cols (.ok spec) ++
+        ") (tags " ++ " ".intercalate tags ++ "))"
   | _ => "(sc bad-request)"
 
 def attachBlocks (blocks : List Sexp) (rs : RowSet) : RowSet :=
